@@ -106,6 +106,17 @@ def check_walk(crate, rep, cfg):
             rep.bad("C11.WALK", key, bad[0].where(), what + " — VIOLATED")
         else:
             rep.ok("C11.WALK", key, edges[0].where(), what)
+        # the walk depends only on the current graph: it reads no field that a previous finalize computed (no cached shortcut)
+        from props import c10
+        derived = c10.commit_written_fields(crate)
+        from engine import field_accesses
+        reads = []
+        for f in derived:
+            for a in field_accesses(crate, "template::Template", f, bodies=crate.with_closures(b)):
+                reads.append(f)
+        key = "C11.WALK:%s:no-cached-state" % path
+        (rep.ok if not reads else rep.bad)("C11.WALK", key, b.where(0), "%s reads none of the derived Template fields %s (every finalize re-walks the current graph)" % (path.rsplit("::", 1)[-1], derived)
+                                           + ("" if not reads else " — VIOLATED: reads %s; a cycle closed by a later add can hide behind a stale cached chain" % sorted(set(reads))))
         # the positive edge of the membership test returns Err (circular_*)
         errs = list(find_calls(b, ["errors::Error::circular_include", "errors::Error::circular_extend"]))
         key = "C11.WALK:%s:cycle-error" % path
